@@ -14,6 +14,7 @@ import (
 	"path/filepath"
 	"sort"
 	"strings"
+	"sync"
 	"time"
 
 	"github.com/restic/restic/internal/bloblru"
@@ -61,6 +62,27 @@ func c03Venv(c *vctx, name string) *venv {
 		}
 	}
 	return e
+}
+
+// c03GateRepo holds the first LoadBlob of one blob until released, so that a second reader of the
+// same blob finds the download in flight.
+type c03GateRepo struct {
+	restic.Repository
+	id               restic.ID
+	once             sync.Once
+	started, release chan struct{}
+}
+
+func (g *c03GateRepo) LoadBlob(ctx context.Context, h restic.BlobHandle, buf []byte) ([]byte, error) {
+	if h.ID == g.id {
+		first := false
+		g.once.Do(func() { first = true })
+		if first {
+			close(g.started)
+			<-g.release
+		}
+	}
+	return g.Repository.LoadBlob(ctx, h, buf)
 }
 
 type c03Pack struct {
@@ -566,6 +588,7 @@ func (r *c03Repo) observe(c *vctx, kind string, sites []c03Site, num int) {
 	// (b) error classes from the checker stages
 	classes := map[int]bool{}
 	var loads, reads []string
+	nconc := 0
 	needed := map[restic.BlobHandle]bool{}
 	var order []restic.BlobHandle
 	for _, s := range r.snaps {
@@ -686,6 +709,57 @@ func (r *c03Repo) observe(c *vctx, kind string, sites []c03Site, num int) {
 					}
 				}
 				reads = append(reads, fmt.Sprintf("(%s, %d)", coqList(bl), o))
+				// (c'') two concurrent readers on a damaged first blob: the second one arrives while the first download is running
+				if o == 1 && lerr == nil && nconc < 2 {
+					bad := -1
+					for j, id := range ids {
+						if _, err := repo2.LoadBlob(ctx, restic.BlobHandle{Type: restic.DataBlob, ID: id}, nil); err != nil {
+							bad = j
+							break
+						}
+					}
+					if bad >= 0 {
+						nconc++
+						rot := append(append([]restic.ID(nil), ids[bad:]...), ids[:bad]...)
+						var rorig []byte
+						var rbl []string
+						for _, id := range rot {
+							rorig = append(rorig, r.plain[restic.BlobHandle{Type: restic.DataBlob, ID: id}]...)
+							rbl = append(rbl, fmt.Sprint(r.bn.get(id.String())))
+						}
+						g := &c03GateRepo{Repository: repo2, id: rot[0], started: make(chan struct{}), release: make(chan struct{})}
+						node := &data.Node{Name: "synthetic", Type: data.NodeTypeFile, Content: rot, Size: uint64(len(rorig))}
+						co := 1
+						if f, err := fuse.VerifC03Open(ctx, g, bloblru.New(1<<20), node); err == nil {
+							res := make(chan int, 2)
+							rd := func() {
+								got, err := f.VerifC03Read(ctx, 0, len(rorig))
+								switch {
+								case err != nil:
+									res <- 1
+								case bytes.Equal(got, rorig):
+									res <- 0
+								default:
+									res <- 2
+								}
+							}
+							go rd()
+							select {
+							case <-g.started:
+							case <-time.After(5 * time.Second):
+							}
+							go rd()
+							time.Sleep(120 * time.Millisecond)
+							close(g.release)
+							a, b := <-res, <-res
+							co = max(a, b)
+							if min(a, b) == 0 {
+								co = max(co, 0)
+							}
+						}
+						reads = append(reads, fmt.Sprintf("(%s, %d)", coqList(rbl), co))
+					}
+				}
 			}
 		}
 		return nil
